@@ -1,6 +1,7 @@
 """C06 — length-prefixed data fields carry arbitrary bytes."""
 from ..facts import Program, AnalysisBroken, WITNESS_FIELDS
 from .. import q, extent
+from . import c07
 
 CLAIM = {
     'text': 'Structural preconditions for binary-safe data fields: the fixed-width extraction step (Length field followed by its data field) '
@@ -18,7 +19,7 @@ EXPLANATION = (
     "requires `lasttag + 1 == tag`; R06.2 decode_group contains the same Length→data step (a call of extract_element_fixed_width); R06.3 "
     "the field factory is called with a `const char*` only (no length) and Field<f8String,N>(const char*) builds its value from the "
     "C string; Field<f8String,N>::print copies size() bytes; R06.4 the decoder's bound on the data length equals the value buffer's capacity (not less), and the fixed-width "
-    "extractor refuses the copy exactly when value (and separator) do not fit. NOT decided: byte contents.")
+    "extractor refuses the copy exactly when value (and separator) do not fit. R06.5 the encoder's order chain (trailer before the BodyLength/CheckSum range, rules of C02 R02.1); R06.6 the checksum routine obeys the C07 rules. NOT decided: byte contents.")
 
 MB = 'FIX8::MessageBase::'
 
@@ -120,3 +121,18 @@ def run(ctx):
               'the copy is refused exactly when the value (or the value and its separator) does not fit the remaining input (remaining - length <= %d)' % thr,
               'the room test `%s` refuses the copy while remaining - length <= %d: a data field %s is rejected although its bytes are there'
               % (site.text(), thr, 'that ends the decoded region (always the case for a Length/data pair in the trailer)' if thr > 0 else 'may be read past the input'))
+
+    # ---------------- R06.5 a data field in the TRAILER is inside the frame: the order rules of the encoder (C02 R02.1: trailer encoded before the
+    # BodyLength / CheckSum range is taken) re-stated for this property; R06.6 data bytes >= 0x80 and any length: the checksum routine both sides
+    # use obeys the C07 rules (incl. the string overload being a pure forwarder)
+    from ..engine import Ctx as _Ctx
+    from . import c02 as _c02
+    sub = _Ctx('C02', ctx.tier)
+    _c02.run(sub)
+    n_ord = 0
+    for o in sub.obl:
+        if o['rule'] == 'R02.1':
+            n_ord += 1
+            ctx._rec(o['ok'], 'R06.5', o['key'].split('@', 1)[1], o['site'], o['what'], o['detail'])
+    ctx.need(n_ord >= 10, 'encoder order chain not evaluated (%d)' % n_ord)
+    c07.rules(ctx, prog, rid='R06.6')
